@@ -327,6 +327,25 @@ def cdr_groups_finding(M):
                 break
             if rc != ("value", want):
                 return f"for groups {gs} the C.D.E string is {rc[1]!r} instead of {want!r}"
+        else:
+            # ... and in one interpreter state, one after the other (codes that differ only in an absent / zero group, both orders): what was formatted before must not matter
+            seq = [(None, None, 1, 8, 0, None), (None, None, 1, 8, None, None), (1, 0, 1, 7, None, None), (1, 0, 1, 7, 0, 255), (None, None, 0, 0, 0, None), (None, None, 0, 0, None, None),
+                   (1, 1, 0, 2, 129, 255), (1, 2, 3, 4, 5, 6)]
+            for order in (seq, seq[::-1]):
+                A1 = AbsEval(M)
+                for gs in order:
+                    rc = A1.apply(fn, [AObj("Obis", {gf: gs}, cls_key=("obis", "Obis"))])
+                    want = ".".join(str(x) for x in gs[2:5])
+                    if rc[0] in ("undecided", "branch"):
+                        break
+                    if rc != ("value", want):
+                        return (f"after other codes have been formatted, the C.D.E string for groups {gs} is {rc[1]!r} instead of {want!r} (state kept between calls: e.g. a cache whose key does not "
+                                "distinguish an absent group from 0)")
+                else:
+                    continue
+                break
+            else:
+                return None
     if r[0] in ("undecided", "branch"):
         from sa.report import Undecided
         raise Undecided(f"Obis.to_group_cdr_str is outside the interpreted subset ({r[1]})")
@@ -402,10 +421,24 @@ def octet_string_text_finding(w):
     sw = next((s_ for s_ in fld.a.get("subs", []) if isinstance(s_, N) and s_.kind == "Switch"), None)
     if sw is None:
         return "cosem.Field has no type switch"
+    def length_prefix(a):
+        """the Int node that holds the length of a text construct (PascalString / FocusedSeq of length + PaddedString), or None"""
+        if a.kind == "PascalString" and isinstance(a.a.get("len"), N):
+            return a.a["len"]
+        if a.kind == "FocusedSeq":
+            subs_ = [x for x in a.a.get("subs", []) if isinstance(x, N)]
+            if len(subs_) == 2 and subs_[0].kind == "Int" and subs_[1].kind == "PaddedString" and subs_[0].name and subs_[0].name in str(getattr(subs_[1].a.get("len"), "src", "")):
+                return subs_[0]
+        return None
     for key, sub in sw.a["cases"].items():
         if not isinstance(key, EnumVal) or key.value not in (9, 10):
             continue
         alts = sub.a["subs"] if sub.kind == "Select" else [sub]
+        for a in alts:
+            lp = length_prefix(a) if isinstance(a, N) else None
+            if lp is not None and not (lp.a.get("size") == 1 and not lp.a.get("signed")):
+                return (f"the length of a COSEM {'octet' if key.value == 9 else 'visible'} string is parsed as `{lp.a.get('type')}` instead of one unsigned octet: texts of 128..255 characters "
+                        "are misread (the following octets are taken as part of the length)")
         for i, a in enumerate(alts):
             if not isinstance(a, N):
                 continue
